@@ -372,8 +372,22 @@ type opened struct {
 	panicked string
 }
 
+// resolverOpts: the options layer.Resolver.Resolve passes to the configured store
+// (telemetry hooks + the additional decompressors: zstd:chunked, external TOC).
+func resolverOpts(c *oneCase) []metadata.Option {
+	nop := func(time.Time) {}
+	return []metadata.Option{
+		metadata.WithTelemetry(&metadata.Telemetry{GetFooterLatency: nop, GetTocLatency: nop, DeserializeTocLatency: nop}),
+		metadata.WithDecompressors(c.Decomp...),
+	}
+}
+
 func openMem(c *oneCase) (o opened) {
 	p, v, st := vf.Recover(func() {
+		if c.memStore != nil {
+			o.r, o.err = c.memStore(section(c.Blob), resolverOpts(c)...)
+			return
+		}
 		o.r, o.err = memorymetadata.NewReader(section(c.Blob), metadata.WithDecompressors(c.Decomp...))
 	})
 	if p {
@@ -394,6 +408,10 @@ func openDBBlob(db *bolt.DB, blob []byte) (rd metadata.Reader, err error) {
 
 func openDB(db *bolt.DB, c *oneCase) (o opened) {
 	p, v, st := vf.Recover(func() {
+		if c.dbStore != nil {
+			o.r, o.err = c.dbStore(section(c.Blob), resolverOpts(c)...)
+			return
+		}
 		o.r, o.err = dbmetadata.NewReader(db, section(c.Blob), metadata.WithDecompressors(c.Decomp...))
 	})
 	if p {
@@ -491,10 +509,36 @@ func diffCase(r *vf.Run, i int, tag string) {
 	for _, f := range cs.Features {
 		r.Count("cases_with:"+f, 1)
 	}
-	bdb, err := openBolt(filepath.Join(r.Scratch, fmt.Sprintf("diff-%s.db", idx)))
-	if err != nil {
-		r.Inconclusive("cannot open bolt file")
-		return
+	// a share of the cases (every blob that needs an additional decompressor, and every 4th
+	// other one) gets its two stores from the daemon's configuration layer
+	var bdb *bolt.DB
+	var err error
+	if needsDecomp := cs.built != nil && cs.built.Opts.Compression != "gzip"; needsDecomp || i%4 == 1 {
+		root := filepath.Join(r.Scratch, "fsopts-"+idx)
+		defer os.RemoveAll(root)
+		var e1, e2 error
+		cs.memStore, _, e1 = storeViaFsopts("memory", filepath.Join(root, "m"))
+		cs.dbStore, bdb, e2 = storeViaFsopts("db", filepath.Join(root, "d"))
+		if e1 != nil || e2 != nil {
+			if bdb != nil {
+				bdb.Close()
+			}
+			r.Inconclusive("capability missing: stores through fsopts.ConfigFsOpts: " + errShape(firstErr(e1, e2)))
+			cs.memStore, cs.dbStore, bdb = nil, nil, nil
+		} else {
+			cs.via = "@via-fsopts"
+			r.Count("cases_with_stores_from_fsopts.ConfigFsOpts", 1)
+			if needsDecomp {
+				r.Count("cases_with_stores_from_fsopts.ConfigFsOpts:zstd_or_external_toc", 1)
+			}
+		}
+	}
+	if bdb == nil {
+		bdb, err = openBolt(filepath.Join(r.Scratch, fmt.Sprintf("diff-%s.db", idx)))
+		if err != nil {
+			r.Inconclusive("cannot open bolt file")
+			return
+		}
 	}
 	defer func() {
 		p := bdb.Path()
@@ -542,7 +586,7 @@ func diffCase(r *vf.Run, i int, tag string) {
 		if mem.err != nil {
 			who, e = "memory", mem.err
 		}
-		r.Violate("accept:"+who+"-rejects-valid-blob:"+errShape(e), "only the "+who+" store rejects this valid blob: "+fmt.Sprint(e), rep(nil))
+		r.Violate("accept:"+who+"-rejects-valid-blob"+cs.via+":"+errShape(e), "only the "+who+" store rejects this valid blob: "+fmt.Sprint(e), rep(nil))
 		r.Distinct("divergence_keys", "accept:"+who+"-rejects-valid-blob")
 	}
 	if mem.err != nil || dbErr != nil {
